@@ -251,9 +251,11 @@ CHECKS = {
         assumptions=["goroutine leak detection reads the core's own net/http/pprof dump (served by simcore on a private port)",
                      "an HTTP-level refusal of KILL disconnects the mesos-go client; such cases end the shared world"],
         quick=[R("^TestFixed$", 1, 1, 600), R("^TestTeardown$", 10, 10, 800, shrinktime="90s"),
-               R("^TestDestroyDuringDeploymentFixed$", 1, 1, 600), R("^TestDestroyDuringDeployment$", 5, 3, 800, shrinktime="60s")],
+               R("^TestDestroyDuringDeploymentFixed$", 1, 1, 600), R("^TestDestroyDuringDeployment$", 5, 3, 800, shrinktime="60s"),
+               R("^TestKillOutcomesFixed$", 1, 1, 300), R("^TestKillOutcomes$", 300, 1, 600, shrinktime="30s")],
         thorough=[R("^TestFixed$", 1, 1, 600), R("^TestTeardown$", 200, 15, 3400, shrinktime="180s"),
-                  R("^TestDestroyDuringDeploymentFixed$", 1, 1, 600), R("^TestDestroyDuringDeployment$", 60, 3, 3400, shrinktime="120s")],
+                  R("^TestDestroyDuringDeploymentFixed$", 1, 1, 600), R("^TestDestroyDuringDeployment$", 60, 3, 3400, shrinktime="120s"),
+                  R("^TestKillOutcomesFixed$", 1, 1, 300), R("^TestKillOutcomes$", 5000, 2, 1800, shrinktime="60s")],
     ),
     "C18": dict(
         pkg="./props/c18", bins=["./cmd/simcore"], level="fault_enumeration",
